@@ -121,73 +121,152 @@ func c08RefNameConst(p *Prog) (string, bool) {
 }
 
 type c08Pass struct {
+	it      *c09Iter
 	fn      *ssa.Function
 	l       *Loop
 	k, v    ssa.Value
 	obj     c09DescObj
-	eq, neq []Edge // ref == digest / ref != digest
+	eq, neq []Edge // ref == digest / ref != digest, decided in the body
+	sel     int    // decided by the iterator that feeds the body: +1 only ref == digest entries are yielded (all of them), -1 only ref != digest, 0 no selection
 }
 
-// c08Passes: range loops of f over a value in `maps`, with the key-vs-digest test edges.
+// starts: where the handling of an entry of the given kind (+1: ref == digest,
+// -1: ref != digest) begins in the body.
+func (p *c08Pass) starts(sign int) (bs []*ssa.BasicBlock) {
+	if p.sel == sign {
+		b, _ := p.it.BodyStart()
+		return []*ssa.BasicBlock{b}
+	}
+	if p.sel != 0 {
+		return nil
+	}
+	es := p.eq
+	if sign < 0 {
+		es = p.neq
+	}
+	for _, e := range es {
+		bs = append(bs, e.To)
+	}
+	return bs
+}
+
+// c08KeyDigestSign: cond is true exactly when key == string(digest of obj) (+1)
+// or exactly when key != … (-1); 0 if it is not such a test.  Understands
+// `(ref == d) != flag` with a flag whose value constOf knows.
+func c08KeyDigestSign(cond ssa.Value, k ssa.Value, obj c09DescObj, constOf func(ssa.Value) (bool, bool)) int {
+	switch u := cond.(type) {
+	case *ssa.UnOp:
+		if u.Op == token.NOT {
+			return -c08KeyDigestSign(u.X, k, obj, constOf)
+		}
+	case *ssa.BinOp:
+		if u.Op != token.EQL && u.Op != token.NEQ {
+			return 0
+		}
+		isDg := func(x ssa.Value) bool { return c09DigestString(obj, x) || c09DigestString(obj, strip(x)) }
+		if (c09SameKey(u.X, k) && isDg(u.Y)) || (c09SameKey(u.Y, k) && isDg(u.X)) {
+			if u.Op == token.EQL {
+				return 1
+			}
+			return -1
+		}
+		// boolean (in)equality with a known flag
+		for _, pair := range [][2]ssa.Value{{u.X, u.Y}, {u.Y, u.X}} {
+			inner := c08KeyDigestSign(pair[0], k, obj, constOf)
+			if inner == 0 {
+				continue
+			}
+			flag, known := false, false
+			if cst, isC := pair[1].(*ssa.Const); isC && cst.Value != nil {
+				flag, known = cst.Value.String() == "true", true
+			} else if constOf != nil {
+				flag, known = constOf(pair[1])
+			}
+			if !known {
+				return 0
+			}
+			if (u.Op == token.EQL) == flag {
+				return inner
+			}
+			return -inner
+		}
+	}
+	return 0
+}
+
+// c08SignEdges: the branch edges of the body of it on which an entry is known
+// to have key == digest / key != digest.
+func c08SignEdges(it *c09Iter, k ssa.Value, obj c09DescObj, constOf func(ssa.Value) (bool, bool)) (eq, neq []Edge) {
+	for _, i := range Ifs(it.Fn) {
+		if !it.InBody(i) {
+			continue
+		}
+		cond, t, fe := ifEdges(i)
+		switch c08KeyDigestSign(cond, k, obj, constOf) {
+		case 1:
+			eq, neq = append(eq, t), append(neq, fe)
+		case -1:
+			eq, neq = append(eq, fe), append(neq, t)
+		}
+	}
+	return
+}
+
+// c08Passes: the loops of f (classic or range-over-func) over a value in
+// `maps`, with the key-vs-digest selection made in the body or by the iterator.
 func c08Passes(f *ssa.Function, maps map[ssa.Value]bool) []c08Pass {
 	var out []c08Pass
-	for _, l := range Loops(f) {
-		ranged, next, _, _, ok := l.RangeMap()
-		if !ok || !maps[ranged] {
+	for _, it := range c09ItersIn(f) {
+		if it.Coll == nil || it.Val == nil || !(maps[it.Coll] || maps[c09Resolved(it.Coll)]) {
 			continue
 		}
-		p := c08Pass{fn: f, l: l}
-		for _, r := range *next.Referrers() {
-			if e, ok := r.(*ssa.Extract); ok {
-				if e.Index == 1 {
-					p.k = e
-				} else if e.Index == 2 {
-					p.v = e
-				}
-			}
-		}
-		if p.k == nil || p.v == nil {
-			continue
-		}
+		p := c08Pass{it: it, fn: it.Fn, l: it.Loop, k: it.Key, v: it.Val}
 		p.obj = c09DescObjOf(p.v)
-		for _, i := range Ifs(f) {
-			if !l.Blocks[i.Block()] {
-				continue
-			}
-			cond, t, fe := ifEdges(i)
-			bo, ok := cond.(*ssa.BinOp)
-			if !ok || (bo.Op != token.EQL && bo.Op != token.NEQ) {
-				continue
-			}
-			isDg := func(x ssa.Value) bool {
-				call, ok := x.(*ssa.Call)
-				if ok && CalleeName(call) == "(digest.Digest).String" {
-					return p.obj.fieldOf(call.Call.Args[0], "Digest")
+		if p.k != nil {
+			p.eq, p.neq = c08SignEdges(it, p.k, p.obj, nil)
+		}
+		// selection made by the in-module iterator that feeds the body
+		if pit := it.ProdIter; pit != nil && pit.Key != nil && pit.Val != nil {
+			constOf := func(v ssa.Value) (bool, bool) {
+				w := it.ProdTr(v)
+				if cst, isC := w.(*ssa.Const); w != nil && isC && cst.Value != nil {
+					return cst.Value.String() == "true", true
 				}
-				if cv, ok := x.(*ssa.Convert); ok {
-					return p.obj.fieldOf(cv.X, "Digest")
-				}
-				if cv, ok := x.(*ssa.ChangeType); ok {
-					return p.obj.fieldOf(cv.X, "Digest")
-				}
-				return false
+				return false, false
 			}
-			if (c09SameKey(bo.X, p.k) && isDg(bo.Y)) || (c09SameKey(bo.Y, p.k) && isDg(bo.X)) {
-				if bo.Op == token.NEQ {
-					p.neq, p.eq = append(p.neq, t), append(p.eq, fe)
-				} else {
-					p.neq, p.eq = append(p.neq, fe), append(p.eq, t)
+			peq, pneq := c08SignEdges(pit, pit.Key, c09DescObjOf(pit.Val), constOf)
+			var ycs []ssa.Instruction
+			for _, yc := range c09YieldCalls(it.Producer) {
+				if pit.InBody(yc) {
+					ycs = append(ycs, yc)
+				}
+			}
+			for _, cand := range []struct {
+				sign  int
+				edges []Edge
+			}{{1, peq}, {-1, pneq}} {
+				if len(cand.edges) == 0 || len(ycs) == 0 {
+					continue
+				}
+				exact := true
+				for _, yc := range ycs {
+					if !c09Guarded(yc, cand.edges) { // only entries of that kind are yielded
+						exact = false
+					}
+				}
+				for _, e := range cand.edges { // and every one of them
+					if pit.ContinuesWithout(e.To, 0, newCut().Instr(ycs...)) {
+						exact = false
+					}
+				}
+				if exact {
+					p.sel = cand.sign
 				}
 			}
 		}
 		out = append(out, p)
 	}
 	return out
-}
-
-// c08BackToHeader: some path from edge e back to the loop header avoids the cut.
-func c08BackToHeader(l *Loop, e Edge, ct *cut) bool {
-	return reach(e.To, 0, l.Header.Instrs[0], ct)
 }
 
 func c08IsStripHelper(p *Prog, g *ssa.Function) bool {
@@ -238,6 +317,10 @@ func c08RefNameSet(fn *ssa.Function, obj c09DescObj, k ssa.Value, e ssa.Value, r
 		return false, "the entry's Annotations are not replaced before it is appended (the reference name is not recorded)", false
 	}
 	if !c08FreshMap(st.Val) {
+		// built by a helper on the map level: withAnnotationRefName(desc.Annotations, ref)
+		if ok, cp := c08RefNameMapHelper(st.Val, obj, k, refName); ok {
+			return true, "", cp
+		}
 		return false, "the annotations map assigned to the entry is not freshly made (writing the reference name into it would modify the descriptor held by the resolver)", false
 	}
 	set := false
@@ -263,6 +346,74 @@ func c08RefNameSet(fn *ssa.Function, obj c09DescObj, k ssa.Value, e ssa.Value, r
 		}
 	}
 	return true, "", copied
+}
+
+// c08RefNameMapHelper: v is the result of an in-module helper that returns a
+// freshly made map in which refName is set to the argument that is the entry's
+// reference; copied reports that the entry's annotations are copied into it.
+func c08RefNameMapHelper(v ssa.Value, obj c09DescObj, k ssa.Value, refName string) (ok, copied bool) {
+	rs := Roots(v)
+	if len(rs) != 1 {
+		return false, false
+	}
+	call, isCall := rs[0].(*ssa.Call)
+	if !isCall {
+		return false, false
+	}
+	h := StaticCallee(call)
+	if h == nil || !inModule(h) || len(h.Blocks) == 0 {
+		return false, false
+	}
+	pr, pa := -1, -1
+	for i, a := range call.Call.Args {
+		if c09SameKey(a, k) {
+			pr = i
+		}
+		if obj.fieldOf(a, "Annotations") {
+			pa = i
+		}
+	}
+	if pr < 0 || pr >= len(h.Params) {
+		return false, false
+	}
+	atoms := RetAtoms(h, 0)
+	if len(atoms) == 0 {
+		return false, false
+	}
+	copied = pa >= 0
+	for _, a := range atoms {
+		if !c08FreshMap(a.Val) {
+			return false, false
+		}
+		set, cp := false, false
+		AllInstrs(h, func(in ssa.Instruction) {
+			switch u := in.(type) {
+			case *ssa.MapUpdate:
+				if c09SameKey(u.Map, a.Val) {
+					if s, isC := constString(u.Key); isC && s == refName && c09SameKey(u.Value, h.Params[pr]) && Dominates(u, a.Ret) {
+						set = true
+					}
+				}
+			case ssa.CallInstruction:
+				if n := CalleeName(u); (n == "maps.Copy" || n == "maps.Insert") && pa >= 0 && pa < len(h.Params) {
+					ca := u.Common().Args
+					if c09SameKey(ca[0], a.Val) && c09SameKey(ca[1], h.Params[pa]) {
+						cp = true
+					}
+				}
+			}
+		})
+		for _, rt := range Roots(a.Val) {
+			if cl, isCl := rt.(*ssa.Call); isCl && CalleeName(cl) == "maps.Clone" && pa >= 0 && pa < len(h.Params) && c09SameKey(cl.Call.Args[0], h.Params[pa]) {
+				cp = true
+			}
+		}
+		if !set {
+			return false, false
+		}
+		copied = copied && cp
+	}
+	return true, copied
 }
 
 // c08FreshMap: every value m may denote is a map made in this function (make / maps.Clone).
@@ -357,11 +508,23 @@ func c08R1(c *Ctx, r *c08Roles) {
 				for _, e := range u.Edges {
 					grow(e)
 				}
+			case *ssa.UnOp:
+				// a local accumulated in a cell (captured by the body of a range-over-func loop): everything stored to it
+				if u.Op == token.MUL {
+					for _, st := range c09CellStores(u.X) {
+						grow(st.Val)
+					}
+				}
 			case *ssa.Extract:
 				if call, ok := u.Tuple.(*ssa.Call); ok {
 					if g := StaticCallee(call); g != nil && len(g.Blocks) > 0 && fnPkgPath(g) == pkgPath(c08Pkg) {
 						for _, a := range RetAtoms(g, u.Index) {
 							grow(a.Val)
+						}
+						for _, r := range Returns(g) {
+							if u.Index < len(r.Results) {
+								grow(r.Results[u.Index])
+							}
 						}
 					}
 				}
@@ -374,6 +537,11 @@ func c08R1(c *Ctx, r *c08Roles) {
 				} else if g := StaticCallee(u); g != nil && len(g.Blocks) > 0 && fnPkgPath(g) == pkgPath(c08Pkg) {
 					for _, a := range RetAtoms(g, 0) {
 						grow(a.Val) // the slice built by an extracted pass
+					}
+					for _, r := range Returns(g) {
+						if len(r.Results) > 0 {
+							grow(r.Results[0]) // … also when it is accumulated in a captured variable
+						}
 					}
 				}
 			}
@@ -400,7 +568,7 @@ func c08R1(c *Ctx, r *c08Roles) {
 		var p1Emits []emit
 		for i := range passes {
 			p := &passes[i]
-			if len(p.neq) == 0 {
+			if len(p.starts(-1)) == 0 {
 				continue
 			}
 			var mine []emit
@@ -415,15 +583,15 @@ func c08R1(c *Ctx, r *c08Roles) {
 							}
 						}
 					}
-					if p.l.Contains(em.call.(ssa.Instruction)) && fromEntry {
+					if p.it.InBody(em.call.(ssa.Instruction)) && fromEntry {
 						mine = append(mine, em)
 						ct.Instr(em.call.(ssa.Instruction))
 					}
 				}
 			}
 			ok := len(mine) > 0
-			for _, e := range p.neq {
-				if c08BackToHeader(p.l, e, ct) {
+			for _, b := range p.starts(-1) {
+				if p.it.ContinuesWithout(b, 0, ct) {
 					ok = false
 				}
 			}
@@ -433,7 +601,7 @@ func c08R1(c *Ctx, r *c08Roles) {
 		}
 		anyNeq := false
 		for i := range passes {
-			if len(passes[i].neq) > 0 {
+			if len(passes[i].starts(-1)) > 0 {
 				anyNeq = true
 			}
 		}
@@ -584,13 +752,13 @@ func c08R1(c *Ctx, r *c08Roles) {
 		okStrip := true
 		for i := range passes {
 			p := &passes[i]
-			if len(p.eq) == 0 || p == p1 {
+			if len(p.starts(1)) == 0 || p == p1 {
 				continue
 			}
 			ct := newCut()
 			n := 0
 			for _, em := range emits {
-				if !p.l.Contains(em.call.(ssa.Instruction)) {
+				if !p.it.InBody(em.call.(ssa.Instruction)) {
 					continue
 				}
 				for _, e := range em.elems {
@@ -608,12 +776,12 @@ func c08R1(c *Ctx, r *c08Roles) {
 				}
 			}
 			dup, _, _ := CallTests(p.fn, "(~/internal/container/set.Set[T]).Contains", func(x *ssa.Call) bool {
-				return dedupSets[x.Call.Args[0]] && p.obj.fieldOf(x.Call.Args[1], "Digest")
+				return (dedupSets[x.Call.Args[0]] || dedupSets[c09Resolved(x.Call.Args[0])]) && p.obj.fieldOf(x.Call.Args[1], "Digest")
 			})
 			ct.Edges(dup...)
 			ok := n > 0
-			for _, e := range p.eq {
-				if c08BackToHeader(p.l, e, ct) {
+			for _, b := range p.starts(1) {
+				if p.it.ContinuesWithout(b, 0, ct) {
 					ok = false
 				}
 			}
@@ -632,11 +800,11 @@ func c08R1(c *Ctx, r *c08Roles) {
 		for _, h := range hosts {
 			AllInstrs(h, func(in ssa.Instruction) {
 				op, set, elem := c09SetOp(in)
-				if op != "add" || !dedupSets[set] {
+				if op != "add" || !(dedupSets[set] || dedupSets[c09Resolved(set)]) {
 					return
 				}
 				nAdd++
-				if !p1.l.Contains(in) || !p1.obj.fieldOf(elem, "Digest") {
+				if !p1.it.InBody(in) || !p1.obj.fieldOf(elem, "Digest") {
 					okDedup = false
 					return
 				}
@@ -644,8 +812,9 @@ func c08R1(c *Ctx, r *c08Roles) {
 				for _, em := range p1Emits {
 					ct.Instr(em.call.(ssa.Instruction))
 				}
-				hdr := p1.l.Header.Instrs[0]
-				if reach(p1.l.Header, 0, in, ct) && reach(in.Block(), instrIndex(in)+1, hdr, ct) {
+				// an iteration that marks the digest has also appended the entry
+				sb, si := p1.it.BodyStart()
+				if reach(sb, si, in, ct) && p1.it.ContinuesWithout(in.Block(), instrIndex(in)+1, ct) {
 					okDedup = false
 				}
 			})
